@@ -537,7 +537,7 @@ theorem sim_read {st : State} {m : Send} (h : SInv (view st) m) (id n : Nat) :
         · exact ⟨m, send_run_wu2 h.hdr _ _ _ _, sinv_set_left h (v := view st) hf rfl rfl rfl rfl rfl⟩
     · exact ⟨m, rfl, h⟩
 
-theorem sim_creditConn {r : State × List Frame} {m m' : Send} (hm : m.hdrOpen = none)
+theorem sim_creditConn {r : State × List Frame} {m m' : Send} (_hm : m.hdrOpen = none)
     (hrun : Send.run m (r.2.map Event.c) = .ok m') (hinv : SInv (view r.1) m') (n : Nat) :
     ∃ m'', Send.run m ((creditConn r n).2.map Event.c) = .ok m'' ∧ SInv (view (creditConn r n).1) m'' := by
   unfold creditConn
@@ -546,7 +546,7 @@ theorem sim_creditConn {r : State × List Frame} {m m' : Send} (hm : m.hdrOpen =
     · exact ⟨m', hrun, hinv⟩
     · refine ⟨m', ?_, hinv⟩
       rw [List.map_append]
-      exact send_run_ok_append (send_run_wu hm _ _) hrun
+      exact send_run_ok_append hrun (send_run_wu hinv.hdr _ _)
   · exact ⟨m', hrun, hinv⟩
 
 theorem sim_close {st : State} {m : Send} (h : SInv (view st) m) (id : Nat) :
@@ -1374,5 +1374,85 @@ theorem sim_runFrom (ops : List Op) (hok : ∀ op ∈ ops, op.ok) :
     unfold runFrom
     obtain ⟨m1, h1, h2⟩ := sim_step h op (hok op List.mem_cons_self)
     exact ih (fun o ho => hok o (List.mem_cons_of_mem _ ho)) (send_run_ok_append hr h1) h2
+
+
+/-! ### the initial state -/
+
+theorem prioSeedFixed_odd (nx id : Int) :
+    0 < prioSeedFixed nx id ∧ prioSeedFixed nx id % 2 = 1 := by
+  unfold prioSeedFixed wrapU32
+  simp only
+  split <;> omega
+
+theorem foldl_prio_odd (l : List Nat) :
+    ∀ (nx : Int), 0 < nx → nx % 2 = 1 →
+    0 < l.foldl (fun (nx : Int) (id : Nat) => prioSeedFixed nx (id : Int)) nx ∧
+    (l.foldl (fun (nx : Int) (id : Nat) => prioSeedFixed nx (id : Int)) nx) % 2 = 1 := by
+  induction l with
+  | nil => intro nx h1 h2; exact ⟨h1, h2⟩
+  | cons a l ih =>
+    intro nx _ _
+    simp only [List.foldl_cons]
+    have := prioSeedFixed_odd nx a
+    exact ih _ this.1 this.2
+
+theorem nextStreamID0_odd (cfg : Cfg) (hfix : cfg.fixes = Fixes.all) :
+    0 < nextStreamID0 cfg ∧ nextStreamID0 cfg % 2 = 1 := by
+  unfold nextStreamID0
+  have hp : prioSeed cfg.fixes = prioSeedFixed := by unfold prioSeed; rw [hfix]; rfl
+  rw [hp]
+  have := foldl_prio_odd cfg.prio 1 (by omega) (by omega)
+  omega
+
+theorem preface_run (cfg : Cfg) :
+    Send.run Send.init ((newConn cfg).2.map Event.c) = .ok Send.init := by
+  simp only [newConn, List.map_cons, List.cons_append, List.nil_append]
+  rw [send_run_cons_c (m' := Send.init) (by simp [Send.client, Send.init])]
+  rw [send_run_cons_c (m' := Send.init) (by simp [Send.client, Send.init])]
+  generalize cfg.prio = l
+  induction l with
+  | nil => rfl
+  | cons a l ih =>
+    simp only [List.filter]
+    split
+    · rename_i ha
+      simp only [List.map_cons]
+      have hne : ¬ a = 0 := by
+        simp only [decide_eq_true_eq] at ha
+        exact ha.1
+      rw [send_run_cons_c (m' := Send.init) (by simp [Send.client, Send.init, hne])]
+      exact ih
+    · exact ih
+
+theorem sinv_init (cfg : Cfg) (hfix : cfg.fixes = Fixes.all) :
+    SInv (view (newConn cfg).1) Send.init := by
+  have hodd := nextStreamID0_odd cfg hfix
+  have hmf : maxFrameSize0 cfg = 16384 := by
+    unfold maxFrameSize0; rw [hfix]; rfl
+  exact { fixes := hfix,
+          maxFrame := by simp only [view, newConn, hmf, Send.init],
+          frameLo := by simp only [view, newConn, hmf]; omega,
+          pending := rfl, hdr := rfl, initWin := rfl,
+          initHi := by simp only [view, newConn, initialWindowSize]; omega,
+          conc := by intro k hk; simp [Send.init] at hk,
+          concNone := fun _ => rfl,
+          connWin := by simp only [view, newConn, Send.init]; omega,
+          connLo := by simp only [view, newConn]; omega,
+          connHi := by simp only [view, newConn]; omega,
+          lastId := by simp only [view, newConn, Send.init]; omega,
+          odd := hodd.2,
+          ids := by intro ms hms; simp [Send.init] at hms,
+          rel := Rels.nil,
+          nodup := by simp [view, newConn],
+          idsLt := by intro s hs; simp [view, newConn] at hs,
+          pendOpen := by intro a b c hx; simp [view, newConn] at hx }
+
+/-- every run of the repaired model is accepted by the send side of the strict peer -/
+theorem send_conforms (cfg : Cfg) (hfix : cfg.fixes = Fixes.all) (ops : List Op) (hok : ∀ op ∈ ops, op.ok) :
+    ∃ m, Send.run Send.init (run cfg ops).2 = .ok m ∧ m.final = .ok () := by
+  unfold run
+  obtain ⟨m, h1, h2⟩ := sim_runFrom ops hok (preface_run cfg) (sinv_init cfg hfix)
+  refine ⟨m, h1, ?_⟩
+  simp [Send.final, h2.pending, h2.hdr]
 
 end Req.Lemmas.C06
